@@ -164,6 +164,18 @@ class FuncV:
         return f"FuncV({self.name})"
 
 
+class LambdaV:
+    """A lambda expression with the environment it was written in (called by the theory: parameters bound positionally)."""
+    __slots__ = ("node", "env")
+
+    def __init__(self, node, env):
+        self.node = node
+        self.env = env
+
+    def __repr__(self):
+        return f"LambdaV(line {self.node.lineno})"
+
+
 class OpaqueStr:
     """An abstracted message string."""
 
@@ -1091,7 +1103,24 @@ class Exec:
         return self.theory.comprehension(self, n)
 
     def e_Lambda(self, n):
-        raise Untranslatable("lambda")
+        a = n.args
+        if a.vararg or a.kwarg or a.kwonlyargs or a.defaults or a.posonlyargs:
+            raise Untranslatable("lambda with defaults / star parameters")
+        return LambdaV(n, dict(self.env))
+
+    def call_lambda(self, lam, args):
+        params = [p.arg for p in lam.node.args.args]
+        if len(params) != len(args):
+            raise PyRaise(ExcV("TypeError"))
+        saved = dict(self.env)
+        try:
+            self.env.clear()
+            self.env.update(lam.env)
+            self.env.update(dict(zip(params, args)))
+            return self.expr(lam.node.body)
+        finally:
+            self.env.clear()
+            self.env.update(saved)
 
     def e_Yield(self, n):
         return self.theory.yield_(self, n)
